@@ -5,6 +5,7 @@ package main
 // form of a Combine call (also used for --replay).
 
 import (
+	"sort"
 	"encoding/hex"
 	"fmt"
 	"math/rand/v2"
@@ -295,6 +296,15 @@ func workload(r *mon.Run, idx int, f func(*call)) error {
 	case idx%8 == 7:
 		topo = simtopo.Chain(rng, 2+rng.IntN(62)) // 2…63
 		family = "chain"
+	case idx == 1 || idx%16 == 11:
+		// long segments sharing a long stem: shortcuts and peering paths of a
+		// few hops below up/down segments whose full lengths exceed 64 together
+		stem := 28 + rng.IntN(30)
+		if idx != 1 && rng.IntN(3) == 0 {
+			stem = 1 + rng.IntN(28)
+		}
+		topo = simtopo.Fork(rng, stem, 1+rng.IntN(4), 1+rng.IntN(4), rng.IntN(3) != 0)
+		family = "fork"
 	case r.Thorough() && idx%16 == 9:
 		// larger topologies (thorough tier only)
 		topo = simtopo.Generate(rng, simtopo.Params{ISDs: 3, MaxASes: 20, MinASes: 16, PeerLinks: 5, CorePeering: true})
@@ -406,6 +416,26 @@ func workload(r *mon.Run, idx int, f func(*call)) error {
 		keep := pairs[:300]
 		// always keep the extreme pairs of a chain
 		keep = append(keep, pair{ias[0], ias[len(ias)-1]}, pair{ias[len(ias)-1], ias[0]})
+		if family == "fork" {
+			// all pairs among the deepest ASes (both branches)
+			type da struct {
+				ia addr.IA
+				d  int
+			}
+			var deep []da
+			for _, ia := range ias {
+				deep = append(deep, da{ia, topo.AS(ia).Depth})
+			}
+			sort.Slice(deep, func(i, j int) bool { return deep[i].d > deep[j].d })
+			deep = deep[:min(len(deep), 9)]
+			for _, x := range deep {
+				for _, y := range deep {
+					if x.ia != y.ia {
+						keep = append(keep, pair{x.ia, y.ia})
+					}
+				}
+			}
+		}
 		nc := topo.NonCoreIAs()
 		core := topo.CoreIAs()[0]
 		keep = append(keep, pair{nc[len(nc)-1], core}, pair{core, nc[len(nc)-1]})
